@@ -103,6 +103,7 @@ def run(ctx):
     else:
         prows = [c for c in cases if c[0] == 'BUILD']
     if prows:
+        ctx.evaluations += len(prows)
         pi = vlib.run_impl(prows, 'c05pre', per_case_s=5.0)
         pm = vlib.run_model(prows, 'c05prem') if drv_ok else {}
         wrows = []
